@@ -311,6 +311,21 @@ KERNELS = [
          self_arrays=["_population_g_i", "_population_ph_i", "_fitness_i", "_MR", "_CR", "_H_MR", "_H_CR"], self_ints=["_k"],
          self_attrs={"_H_size": ("H_size", "Int")},
          ext_fn={"self._update_u": ("updateFn", ["u", "S", "df"], ["Int", "Arr", "Arr"], "Int")}),
+    # ---- TheFittest.get (the values of the returned dictionary, in its order) and the base class's _from_population_g_to_fitness:
+    #      evaluate, update the record, THEN write the record into the last slot when elitism is on.  _get_phenotype / _get_fitness are
+    #      function parameters; the effect of _update_data() on the record is `recordFn population_g population_ph fitness k` (the new
+    #      genotype, phenotype, fitness of the record; tied separately: TheFittest._update)
+    dict(name="TheFittest_get", file="base/_ea.py", cls="TheFittest", func="get", params=[], ret="Arr",
+         self_state=["_genotype", "_phenotype", "_fitness", "_no_update_counter"], dict_values=True),
+    dict(name="EA_from_population_g_to_fitness", file="base/_ea.py", cls="EvolutionaryAlgorithm", func="_from_population_g_to_fitness", params=[], ret="Mat",
+         self_arrays=["_population_g_i", "_population_ph_i", "_fitness_i"], self_attrs={"_elitism": ("elitism", "Bool")},
+         self_ints=["_thefittest._genotype", "_thefittest._phenotype", "_thefittest._fitness", "_thefittest._no_update_counter"],
+         ext_fn={"self._get_phenotype": ("phenFn", ["population_g"], ["Arr"]), "self._get_fitness": ("fitFn", ["population_ph"], ["Arr"])},
+         effects={"self._update_data": ("recordFn", ["_population_g_i", "_population_ph_i", "_fitness_i"],
+                                        ["_thefittest._genotype", "_thefittest._phenotype", "_thefittest._fitness"])},
+         record_get=("self._thefittest.get().values()", "TheFittest_get",
+                     ["_thefittest._genotype", "_thefittest._phenotype", "_thefittest._fitness", "_thefittest._no_update_counter"]),
+         append_self_return=True),
     dict(name="tournament_selection", file="utils/selections.py", func="tournament_selection",
          params=[("fitness", "Arr"), ("rank", "Arr"), ("tour_size", "Int"), ("quantity", "Int")], ret="Arr",
          ext_fn={"random_sample": ("sampler", ["range_size", "quantity", "replace"])}),
@@ -402,7 +417,7 @@ class Tr:
         self.ntmp = 0
         self.tmps: dict[str, str] = {"app" + a_: "Arr" for a_ in self.self_append}
         self.tmps.update({"arr" + a_: "Arr" for a_ in cfg.get("self_arrays", [])})
-        self.tmps.update({"int" + a_: "Int" for a_ in cfg.get("self_ints", [])})
+        self.tmps.update({"int" + a_.replace(".", "_"): "Int" for a_ in cfg.get("self_ints", [])})
         self.keyconsts: dict[str, float] = {}
         self.used_streams: set = set()
         self.collect(fn.body)
@@ -1016,7 +1031,7 @@ class Tr:
             if dotted is not None and dotted in self.self_arrays:
                 return f"s.arr{dotted}"
             if dotted is not None and dotted in self.self_ints:
-                return f"s.int{dotted}"
+                return f"s.int{dotted.replace('.', '_')}"
             if e.attr == "size" and self.ty(e.value) == "Arr":
                 return f"(Imp.leni {self.E(e.value, env)})"
             if e.attr in self.node_attrs and self._safe_ty(e.value) == "Int" and not isinstance(e.value, ast.Name):
@@ -1287,6 +1302,29 @@ class Tr:
             upd = ", ".join(f"self{a} := Imp.geti v ({k} : Int)" for k, a in enumerate(self.self_state))
             L.append(f"(match {callee} {selfl} {args} with | some v => {{ s with {upd} }} | none => {{ s with err := true }})")
             return L
+        if isinstance(st, ast.Expr) and isinstance(st.value, ast.Call) and self.self_call_name(st.value) in self.cfg.get("effects", {}) and not st.value.args and not st.value.keywords:
+            # a method call whose effect on the listed attributes is a function parameter of the listed arrays (and the call's ordinal)
+            par, reads, writes = self.cfg["effects"][self.self_call_name(st.value)]
+            t = self.tmp("Arr")
+            L.append(f"{{ s with {t} := {par} " + " ".join(f"s.arr{r}" for r in reads) + " s.kx, kx := s.kx + 1 }")
+            L.append(f"{{ s with err := s.err || decide ((s.{t}).length ≠ {len(writes)}), " +
+                     ", ".join(f"int{w.replace('.', '_')} := Imp.geti s.{t} ({k} : Int)" for k, w in enumerate(writes)) + " }")
+            return L
+        if isinstance(st, ast.Assign) and len(st.targets) == 1 and isinstance(st.targets[0], ast.Tuple) and self.cfg.get("record_get") \
+                and ast.unparse(st.value) == self.cfg["record_get"][0]:
+            # (X[-1], Y[-1], Z[-1]) = self._thefittest.get().values(): the translated get() on the current record, its values in order
+            _, callee, attrs = self.cfg["record_get"]
+            tg = st.targets[0]
+            ok = all(isinstance(el, ast.Subscript) and self.self_path(el.value) in self.self_arrays and isinstance(el.slice, ast.UnaryOp)
+                     and isinstance(el.slice.op, ast.USub) and isinstance(el.slice.operand, ast.Constant) and el.slice.operand.value == 1 for el in tg.elts)
+            if not ok:
+                raise NotRecognised(f"targets of {ast.unparse(st)}")
+            t = self.tmp("Arr")
+            selfl = "[" + ", ".join(f"s.int{a_.replace('.', '_')}" for a_ in attrs) + "]"
+            L.append(f"(match {callee} {selfl} with | some v => {{ s with {t} := v }} | none => {{ s with err := true }})")
+            L.append(f"{{ s with err := s.err || decide ((s.{t}).length ≠ {len(tg.elts)}) || " + " || ".join(f"s.arr{self.self_path(el.value)}.isEmpty" for el in tg.elts) + " }")
+            L.append("{ s with " + ", ".join(f"arr{self.self_path(el.value)} := Imp.setlast s.arr{self.self_path(el.value)} (Imp.geti s.{t} ({k} : Int))" for k, el in enumerate(tg.elts)) + " }")
+            return L
         if isinstance(st, ast.Expr) and isinstance(st.value, ast.Call) and self.self_call_name(st.value) in self.actions:
             # an action of the run skeleton: its arguments are evaluated (range checks), its effect is the log entry
             env = self.pre([a for a in st.value.args if not (isinstance(a, ast.Name) and a.id == "self")], L)
@@ -1407,7 +1445,7 @@ class Tr:
                 return L
             if isinstance(t, ast.Attribute) and self.self_path(t) in self.self_ints:
                 env = self.pre([st.value], L)
-                L.append(f"{{ s with int{self.self_path(t)} := {self.E(st.value, env)} }}")
+                L.append(f"{{ s with int{self.self_path(t).replace('.', '_')} := {self.E(st.value, env)} }}")
                 return L
             if isinstance(t, ast.Subscript) and self.self_path(t.value) in self.self_arrays and not isinstance(t.slice, ast.Slice) and self._safe_ty(t.slice) == "Int":
                 fld = "arr" + self.self_path(t.value)
@@ -1462,7 +1500,7 @@ class Tr:
             op = {ast.Add: "+", ast.Sub: "-", ast.Mult: "*"}.get(type(st.op))
             if op is None:
                 raise NotRecognised("augmented operator")
-            n = "int" + self.self_path(st.target)
+            n = "int" + self.self_path(st.target).replace(".", "_")
             env = self.pre([st.value], L)
             L.append(f"{{ s with {n} := s.{n} {op} {self.E(st.value, env)} }}")
             return L
@@ -1675,7 +1713,7 @@ class Tr:
         extra = " ".join(f"({v} : {LTY[t]})" for v, t in list(self.self_attrs.values()) + list(self.ext.values()))
         extra += "".join(f" ({self.id(n)} : {LTY[t]})" for n, t in cfg.get("inputs", {}).items())
         extra += "".join(f" ({a_[1:]} : List Int)" for a_ in self.self_arrays)
-        extra += "".join(f" ({a_[1:]}_0 : Int)" for a_ in self.self_ints)
+        extra += "".join(f" ({a_[1:].replace('.', '_')}_0 : Int)" for a_ in self.self_ints)
         extra += "".join(f" ({n} : Int)" for n in sorted(self.keyconsts))
         if self.streams:
             if "us" in self.used_streams:
@@ -1689,6 +1727,7 @@ class Tr:
                          for nm_, v in self.ext_fn.items())
         if cfg.get("fuel_param"):
             extra += " (fuelp : Nat)"
+        extra += "".join(f" ({v[0]} : " + "List Int → " * len(v[1]) + "Nat → List Int)" for v in cfg.get("effects", {}).values())
         extra += "".join(f" ({par} : Int → List (List Int))" for par in self.tree_ext_fn.values())
         extra += "".join(f" ({par} : Int → Bool)" for par in self.node_preds.values())
         extra += "".join(f" ({par} : Int → Int)" for par in self.node_attrs.values())
@@ -1698,15 +1737,16 @@ class Tr:
         extra += "".join(f" ({v} : Int)" for d in self.self_items.values() for v in d.values())
         extra += "".join(f" ({v} : Bool)" for v in self.not_none.values())
         extra += "".join(f" ({par} : List Int)" for par, _ in self.bool_stream.values())
-        imports = "".join(f"import TFV.Generated.Src.{u}\n" for u in list(self.uses) + list(self.method_uses.values()) + list(self.tree_methods.values()) + list(self.tree_calls.values()))
+        imports = "".join(f"import TFV.Generated.Src.{u}\n" for u in list(self.uses) + list(self.method_uses.values()) + list(self.tree_methods.values()) + list(self.tree_calls.values())
+                          + ([cfg["record_get"][1]] if cfg.get("record_get") else []))
         fuel = f"  let fuel : Nat := {cfg['fuel']}\n" if cfg.get("fuel") else ""
         return (f"/- GENERATED by harness/extract/py2lean.py from /repo/src/thefittest/{cfg['file']} ({(cfg.get('cls') + '.') if cfg.get('cls') else ''}{cfg['func']})\n"
                 f"   on every run of the checks that depend on it. Do not edit. -/\n"
                 f"import TFV.Model.Imp\n{imports}\nset_option linter.unusedVariables false\n\nnamespace TFV.Generated.Src\nopen TFV\n\n"
                 f"structure {name}.S where\n{fields}  brk : Bool := false\n  cnt : Bool := false\n  err : Bool := false\n  dry : Bool := false\n"
-                f"  ku : Nat := 0\n  kn : Nat := 0\n  kr : Nat := 0\n" + ("  kx : Nat := 0\n" if (self.ext_stream or self.ext_fn or self.opaque_fn) else "") + ("  kb : Nat := 0\n  log : List Int := []\n" if (self.bool_stream or self.actions) else "") + "\n"
+                f"  ku : Nat := 0\n  kn : Nat := 0\n  kr : Nat := 0\n" + ("  kx : Nat := 0\n" if (self.ext_stream or self.ext_fn or self.opaque_fn or cfg.get("effects")) else "") + ("  kb : Nat := 0\n  log : List Int := []\n" if (self.bool_stream or self.actions) else "") + "\n"
                 f"def {name} {params} {extra} : Option ({LTY[cfg['ret']]}) :=\n"
-                f"  let s : {name}.S := {{" + ", ".join([f"self{a} := Imp.geti self ({k} : Int)" for k, a in enumerate(self.self_state)] + [f"arr{a_} := {a_[1:]}" for a_ in self.self_arrays] + [f"int{a_} := {a_[1:]}_0" for a_ in self.self_ints]) + f"}}\n{fuel}{body}\n\nend TFV.Generated.Src\n")
+                f"  let s : {name}.S := {{" + ", ".join([f"self{a} := Imp.geti self ({k} : Int)" for k, a in enumerate(self.self_state)] + [f"arr{a_} := {a_[1:]}" for a_ in self.self_arrays] + [f"int{a_.replace('.', '_')} := {a_[1:].replace('.', '_')}_0" for a_ in self.self_ints]) + f"}}\n{fuel}{body}\n\nend TFV.Generated.Src\n")
 
 
 NP_FUNCS = ("abs", "split", "float64", "int64", "floor", "array", "empty", "zeros", "empty_like", "arange", "cumsum", "argmax")
@@ -1744,6 +1784,19 @@ def translate(repo: Path, cfg: dict) -> str:
         rows = [mk(a_) for a_ in cfg["self_arrays"]] + ([ast.List(elts=[mk(a_) for a_ in cfg["self_ints"]], ctx=ast.Load())] if cfg.get("self_ints") else [])
         ret = ast.Return(value=ast.List(elts=rows, ctx=ast.Load()))
         fn = ast.FunctionDef(name=fn.name, args=fn.args, body=fn.body[cut:] + [ret], decorator_list=[], returns=None, type_comment=None)
+        ast.fix_missing_locations(fn)
+    if cfg.get("append_self_return"):
+        mk = lambda a_: ast.parse("self." + a_, mode="eval").body   # noqa: E731
+        rows = [mk(a_) for a_ in cfg["self_arrays"]] + [ast.List(elts=[mk(a_) for a_ in cfg.get("self_ints", [])], ctx=ast.Load())]
+        fn = ast.FunctionDef(name=fn.name, args=fn.args, body=list(fn.body) + [ast.Return(value=ast.List(elts=rows, ctx=ast.Load()))], decorator_list=[], returns=None, type_comment=None)
+        ast.fix_missing_locations(fn)
+    if cfg.get("dict_values"):
+        # `return {key: value, ...}` is read as the list of its values, in the dictionary's order
+        last = fn.body[-1]
+        if not (isinstance(last, ast.Return) and isinstance(last.value, ast.Dict) and all(isinstance(k, ast.Constant) and isinstance(k.value, str) for k in last.value.keys)):
+            raise NotRecognised("the function does not end in `return {...}` with string keys")
+        body = list(fn.body[:-1]) + [ast.Return(value=ast.Tuple(elts=list(last.value.values), ctx=ast.Load()))]
+        fn = ast.FunctionDef(name=fn.name, args=fn.args, body=body, decorator_list=[], returns=None, type_comment=None)
         ast.fix_missing_locations(fn)
     if cfg.get("return_call_kwargs"):
         # the last statement must be the named call; it is replaced by `return [[scalars...], series...]` of its keyword values
